@@ -1,7 +1,270 @@
-from ..model import AnalysisError
+"""C05 - requests are served by priority, first-come-first-served among equals.
+
+  R1 reserve_X(priority) stores the parameter in one event attribute, appends the event to its queue, then sorts
+     that queue with a key reading exactly that attribute (no reverse); stores without priorities only append;
+  R2 the only other queue mutations are pop(idx) in the service loop and remove(event) in the cancellations;
+  R3 the service loop is head-first and the grant function does not read the request (frozen exception: filter);
+  R4 PriorityReqStore: key = (priority, time) is set before the base constructor enqueues the request and
+     SortedQueue.append appends, then stable-sorts on .key; the store installs SortedQueue for both queues;
+  R5 library code passes no priorities, so edge-level order is arrival order.
+With list.sort stability these imply the property.
+"""
+from __future__ import annotations
+
+import ast
+
+from .. import paths, storewalk, tables
+from ..model import AnalysisError, Project, self_attr, walk_no_nested
+from ..report import Result
+from ..tables import QP, QG
+from .common import site, src
+from . import c04
+
 PROP = 'C05'
-LEVEL = 'other'
+LEVEL = 'proof'
+
+R3_EXCEPTIONS = {('base/reservable_priority_req_filter_store.py', 'ReservablePriorityReqFilterStore', 'get'):
+                 'the filter of the request decides which item it may take (C06.R3)'}
 
 
-def run(p, tier):
-    raise AnalysisError('rule module for C05 not implemented yet (fail closed)')
+def run(p: Project, tier: str) -> Result:
+    r = Result(PROP)
+    r.explanation = ('Queue discipline shape: append → stable ascending sort on the request\'s own priority → head-first service → '
+                     'order-preserving removal; with list.sort stability this implies priority-then-FCFS for every history.')
+    r.rule('C05.R1', 'enqueue = append (+ stable ascending sort on the priority attribute assigned from the parameter)', 16)
+    r.rule('C05.R2', 'no other mutation of the request queues than service-loop pop and cancellation remove', 30)
+    r.rule('C05.R3', 'head-first service; the grant does not depend on the request', 16)
+    r.rule('C05.R4', 'PriorityReqStore: key=(priority,time) before enqueue; SortedQueue.append = append + stable sort on key', 4)
+    r.rule('C05.R5', 'library code passes no priorities to reserve_put / reserve_get', 20)
+    r.assumptions = ['list.sort is stable (language guarantee)', 'simpy BaseResource enqueues the request inside Put/Get.__init__ via queue.append']
+    ws = storewalk.walks(p, assume_inv=('I1',))
+    for w in ws:
+        r.paths += w.npaths
+        check_enqueue(p, w, r)
+        check_queue_mutations(p, w, r)
+        check_service(p, w, r)
+    check_priority_req_store(p, r)
+    check_callers(p, r)
+    return r
+
+
+def check_enqueue(p, w, r):
+    s = w.store
+    for name, Q in (('reserve_put', QP), ('reserve_get', QG)):
+        fi = s.methods[name]
+        r.analysed_functions.add(fi.key)
+        params = [a.arg for a in fi.node.args.args if a.arg != 'self']
+        has_prio = 'priority' in params
+        key = f'{s.ci.label}.{name}::enqueue'
+        bad = None
+        for pa in w.roots[name]:
+            if pa.raises:
+                continue
+            evs = pa.events
+            appends = [e for e in evs if e.kind == 'op' and e.list == Q]
+            sorts = [e for e in evs if e.kind == 'sort' and e.d.get('list') == Q]
+            if len(appends) != 1 or appends[0].op != 'append':
+                bad = (pa, f'expected exactly one `{Q}.append`, found {[(e.op) for e in appends]}')
+                continue
+            ap = appends[0]
+            ret = [e for e in evs if e.kind == 'return']
+            if not ret or ret[-1].value != ap.val:
+                bad = (pa, 'the event appended to the queue is not the event returned to the caller')
+            if has_prio:
+                prio_sets = [e for e in evs if e.kind == 'setattr' and e.value == ('param', 'priority')]
+                if len(prio_sets) != 1:
+                    bad = (pa, f'priority parameter stored in {len(prio_sets)} attribute(s) (expected 1)')
+                    continue
+                attr = prio_sets[0].attr
+                if len(sorts) != 1:
+                    bad = (pa, f'{len(sorts)} sorts of {Q} (expected 1)')
+                    continue
+                so = sorts[0]
+                call = so.node
+                kws = {k.arg: k.value for k in call.keywords}
+                if call.args or set(kws) - {'key'} or 'key' not in kws:
+                    bad = (pa, f'sort must use only key= (found args={len(call.args)}, keywords={sorted(kws)})')
+                    continue
+                lam = kws['key']
+                good_key = isinstance(lam, ast.Lambda) and len(lam.args.args) == 1 and isinstance(lam.body, ast.Attribute) \
+                    and isinstance(lam.body.value, ast.Name) and lam.body.value.id == lam.args.args[0].arg and lam.body.attr == attr
+                if not good_key:
+                    bad = (pa, f'sort key `{ast.unparse(lam)}` does not read exactly the attribute `{attr}` assigned from the priority parameter')
+                    continue
+                order = [evs.index(prio_sets[0]), evs.index(ap), evs.index(so)]
+                if order != sorted(order):
+                    bad = (pa, 'order must be: store priority → append → sort')
+                # the sort must precede the trigger call
+                trig = [i for i, e in enumerate(evs) if e.kind == 'call' and e.name in tables.TRIGGERS]
+                if trig and trig[0] < evs.index(so):
+                    bad = (pa, 'the queue is sorted after the service loop already ran')
+            else:
+                if sorts:
+                    bad = (pa, f'{Q} is sorted although the store takes no priority')
+        if bad:
+            r.fail('C05.R1', key, bad[1], src(fi.module), fi.node.lineno, bad[0].describe())
+        else:
+            r.ok('C05.R1', key, 'append + stable ascending sort on the own priority' if has_prio else 'append only (FCFS)', src(fi.module), fi.node.lineno)
+
+
+ALLOWED = {('reserve_put', QP, 'append'), ('reserve_put', QP, 'sort'), ('reserve_get', QG, 'append'), ('reserve_get', QG, 'sort'),
+           ('_trigger_reserve_put', QP, 'pop'), ('_trigger_reserve_get', QG, 'pop'),
+           ('reserve_put_cancel', QP, 'remove'), ('reserve_get_cancel', QG, 'remove')}
+
+
+def check_queue_mutations(p, w, r):
+    s = w.store
+    reach = w.reachable_methods()
+    for ci in p.mro(s.ci.key):
+        for fi in ci.methods.values():
+            if fi.name == '__init__':
+                continue
+            for n in walk_no_nested(fi.node):
+                Q = None
+                op = None
+                if isinstance(n, ast.Call) and isinstance(n.func, ast.Attribute) and self_attr(n.func.value) in (QP, QG):
+                    Q, op = self_attr(n.func.value), n.func.attr
+                    if op in ('index', 'count', 'copy', '__len__'):
+                        continue
+                elif isinstance(n, (ast.Assign, ast.AugAssign, ast.Delete)):
+                    for t in (n.targets if isinstance(n, (ast.Assign, ast.Delete)) else [n.target]):
+                        base = t.value if isinstance(t, ast.Subscript) else t
+                        if self_attr(base) in (QP, QG):
+                            Q, op = self_attr(base), ('setitem' if isinstance(t, ast.Subscript) else 'rebind')
+                if Q is None:
+                    continue
+                key = f'{fi.key}::{Q}.{op}'
+                if (fi.name, Q, op) in ALLOWED:
+                    r.ok('C05.R2', key, 'order-preserving queue operation in its designated function', src(fi.module), n.lineno)
+                elif fi.key not in reach:
+                    r.ok('C05.R2', key, 'in a method unreachable from the store API (excluded)', src(fi.module), n.lineno)
+                else:
+                    r.fail('C05.R2', key, f'`{Q}.{op}` in {fi.name}: the relative order of waiting requests can change outside '
+                                          f'enqueue / head service / cancellation', src(fi.module), n.lineno)
+    # no code outside the store classes touches the queues
+    storekeys = set()
+    for s2 in tables.discover_stores(p):
+        for ci in p.mro(s2.ci.key):
+            storekeys.add(ci.key)
+    if w is storewalk.walks(p, assume_inv=('I1',))[0]:
+        for fi in p.all_functions():
+            if fi.cls and (fi.module, fi.cls) in storekeys:
+                continue
+            for n in walk_no_nested(fi.node):
+                if isinstance(n, ast.Attribute) and n.attr in (QP, QG):
+                    r.fail('C05.R2', f'{fi.key}::foreign-access({n.attr})', f'`{ast.unparse(n)}` accessed outside the store classes',
+                           src(fi.module), n.lineno)
+
+
+def check_service(p, w, r):
+    s = w.store
+    for which, grant in (('put', '_do_reserve_put'), ('get', '_do_reserve_get')):
+        fi = s.methods[grant]
+        key = f'{s.ci.label}.{grant}::request-independent'
+        exc = R3_EXCEPTIONS.get((s.ci.module, s.ci.name, which))
+        reads = c04.grant_reads_request(w, which)
+        if reads and not exc:
+            r.fail('C05.R3', key, 'the grant function reads attributes of the request: a later request can overtake the head', src(fi.module), fi.node.lineno)
+        elif reads:
+            r.ok('C05.R3', key, f'frozen exception: {exc}', src(fi.module), fi.node.lineno)
+        else:
+            r.ok('C05.R3', key, 'grant decided from the store state only; head-first loop checked by C04.R3', src(fi.module), fi.node.lineno)
+    # head-first: reuse the C04.R3 walk
+    sub = Result('C05')
+    c04.check_service_loop(p, w, sub)
+    for o in sub.obligations:
+        k = o.construct.replace('::service-loop', '::head-first')
+        if o.ok:
+            r.ok('C05.R3', k, o.detail, o.file, o.line)
+    for f in sub.findings:
+        r.fail('C05.R3', f.construct.replace('::service-loop', '::head-first'), f.message, f.file, f.line, f.path)
+
+
+def check_priority_req_store(p, r):
+    rel = 'base/priority_req_store.py'
+    if rel not in p.modules:
+        raise AnalysisError('anchor vanished: base/priority_req_store.py')
+    sq = p.cls(rel, 'SortedQueue')
+    ap = sq.methods.get('append')
+    key = f'{rel}::SortedQueue.append::append-then-stable-sort'
+    ok = False
+    why = 'SortedQueue.append missing'
+    if ap:
+        r.analysed_functions.add(ap.key)
+        calls = [n for n in walk_no_nested(ap.node) if isinstance(n, ast.Call) and isinstance(n.func, ast.Attribute)
+                 and isinstance(n.func.value, ast.Call) and ast.unparse(n.func.value.func) == 'super']
+        calls.sort(key=lambda n: n.lineno)
+        names = [c.func.attr for c in calls]
+        why = f'expected super().append(item) then super().sort(key=lambda e: e.key), found {names}'
+        if names == ['append', 'sort']:
+            so = calls[1]
+            kws = {k.arg: k.value for k in so.keywords}
+            lam = kws.get('key')
+            if not so.args and set(kws) == {'key'} and isinstance(lam, ast.Lambda) and isinstance(lam.body, ast.Attribute) \
+                    and lam.body.attr == 'key' and isinstance(lam.body.value, ast.Name) and lam.body.value.id == lam.args.args[0].arg:
+                itemp = [a.arg for a in ap.node.args.args if a.arg != 'self'][0]
+                if calls[0].args and isinstance(calls[0].args[0], ast.Name) and calls[0].args[0].id == itemp:
+                    ok = True
+                else:
+                    why = 'super().append does not append the item'
+            else:
+                why = f'sort call `{ast.unparse(so)}` is not a plain ascending sort on .key'
+    (r.ok if ok else r.fail)('C05.R4', key, 'append then stable sort on .key' if ok else why, src(rel), ap.node.lineno if ap else 0)
+    for cname in ('PriorityGet', 'PriorityPut'):
+        ci = p.cls(rel, cname)
+        init = ci.methods.get('__init__')
+        key = f'{rel}::{cname}.__init__::key-before-enqueue'
+        if init is None:
+            r.fail('C05.R4', key, '__init__ missing', src(rel), ci.node.lineno)
+            continue
+        r.analysed_functions.add(init.key)
+        key_assign = None
+        sup = None
+        for n in walk_no_nested(init.node):
+            if isinstance(n, ast.Assign) and any(self_attr(t) == 'key' for t in n.targets):
+                key_assign = n
+            if isinstance(n, ast.Call) and isinstance(n.func, ast.Attribute) and n.func.attr == '__init__' \
+                    and isinstance(n.func.value, ast.Call) and ast.unparse(n.func.value.func) == 'super':
+                sup = n
+        good = False
+        why = ''
+        if key_assign is None or sup is None:
+            why = 'self.key assignment or super().__init__ call not found'
+        elif key_assign.lineno > sup.lineno:
+            why = 'self.key is assigned after super().__init__ enqueued the request'
+        else:
+            v = key_assign.value
+            if isinstance(v, ast.Tuple) and len(v.elts) == 2 and ast.unparse(v.elts[0]) == 'self.priority' and ast.unparse(v.elts[1]) == 'self.time':
+                # self.priority from the parameter, self.time from env.now
+                pr = [n for n in walk_no_nested(init.node) if isinstance(n, ast.Assign) and any(self_attr(t) == 'priority' for t in n.targets)]
+                tm = [n for n in walk_no_nested(init.node) if isinstance(n, ast.Assign) and any(self_attr(t) == 'time' for t in n.targets)]
+                if pr and isinstance(pr[0].value, ast.Name) and pr[0].value.id == 'priority' and tm and ast.unparse(tm[0].value).endswith('.now') \
+                        and pr[0].lineno < key_assign.lineno and tm[0].lineno < key_assign.lineno:
+                    good = True
+                else:
+                    why = 'self.priority / self.time are not taken from the priority parameter / env.now before the key is built'
+            else:
+                why = f'key is `{ast.unparse(v)}`, expected (self.priority, self.time)'
+        (r.ok if good else r.fail)('C05.R4', key, 'key = (priority, time) assigned before super().__init__' if good else why, src(rel), init.node.lineno)
+    st = p.cls(rel, 'PriorityReqStore')
+    key = f'{rel}::PriorityReqStore::queues'
+    ca = st.class_attrs
+    good = all(isinstance(ca.get(q), ast.Name) and ca[q].id == 'SortedQueue' for q in ('GetQueue', 'PutQueue')) \
+        and all(isinstance(ca.get(m), ast.Call) and ast.unparse(ca[m].func) == 'BoundClass' and ca[m].args
+                and ast.unparse(ca[m].args[0]) == c for m, c in (('get', 'PriorityGet'), ('put', 'PriorityPut')))
+    (r.ok if good else r.fail)('C05.R4', key, 'GetQueue = PutQueue = SortedQueue; get/put bound to PriorityGet/PriorityPut' if good else
+                               'PriorityReqStore no longer installs SortedQueue / the priority request classes', src(rel), st.node.lineno)
+
+
+def check_callers(p, r):
+    n = 0
+    for fi in p.all_functions():
+        for c in walk_no_nested(fi.node):
+            if isinstance(c, ast.Call) and isinstance(c.func, ast.Attribute) and c.func.attr in ('reserve_put', 'reserve_get'):
+                n += 1
+                key = site(fi, c, 'call')
+                if c.args or c.keywords:
+                    r.fail('C05.R5', key, f'`{ast.unparse(c)}` passes a priority: edge-level service order is no longer arrival order',
+                           src(fi.module), c.lineno)
+                else:
+                    r.ok('C05.R5', key, 'no priority argument', src(fi.module), c.lineno)
